@@ -252,6 +252,12 @@ fn one_case(rep: &mut Report, rng: &mut Rng, idx: u64) {
                     }
                 }
             }
+            // nothing was rolled: a window of one slot has nothing to shift either, its archive stays
+            if cnt == 1 && neww.len() < known.len() {
+                rep.violation("C07:archive-removed-by-a-failed-roll", json!({"case": desc, "roll": k,
+                    "what": "roll() of a missing file removed the only archive of a one-slot window"}));
+                return;
+            }
             w = neww;
             rolled.clear();
             before = after;
@@ -419,6 +425,55 @@ fn one_case(rep: &mut Report, rng: &mut Rng, idx: u64) {
     }
 }
 
+/// Patterns relative to the working directory, as people write them in configuration files: no directory
+/// part at all, a "./" prefix, a relative sub-directory. (Sequential: the working directory is process-wide.)
+fn relative_pattern_cases(rep: &mut Report) {
+    if rep.only.is_some() {
+        return;
+    }
+    let old = std::env::current_dir().ok();
+    for (k, pattern) in ["app.{}.log", "./app.{}.log", "logs/app.{}.log", "app.log.{}", "{}"].iter().enumerate() {
+        for count in [1u32, 2, 3] {
+            let sc = Scratch::new("c07rel");
+            if std::env::set_current_dir(&sc.path).is_err() {
+                rep.inconclusive("cannot change the working directory");
+                return;
+            }
+            let roller = match FixedWindowRoller::builder().build(pattern, count) {
+                Ok(r) => r,
+                Err(e) => {
+                    rep.violation("C07:roller-build-failed", json!({"pattern": pattern, "error": e.to_string()}));
+                    continue;
+                }
+            };
+            let mut rolled: Vec<String> = vec![];
+            for r in 0..(count + 2) {
+                let content = format!("relative case {} roll {}", k, r);
+                std::fs::write("current.log", &content).unwrap();
+                rep.case_enumerated(true);
+                let res = trap::catch(|| roller.roll(Path::new("current.log")).map_err(|e| e.to_string()));
+                rolled.insert(0, content);
+                rolled.truncate(count as usize);
+                rep.count("rolls_observed", 1);
+                rep.count("rolls_with_patterns_relative_to_the_working_directory", 1);
+                let got: Vec<Option<String>> = (0..count).map(|i| std::fs::read_to_string(pattern.replace("{}", &i.to_string())).ok()).collect();
+                let want: Vec<Option<String>> = (0..count as usize).map(|i| rolled.get(i).cloned()).collect();
+                if !matches!(res, Ok(Ok(()))) || got != want || Path::new("current.log").exists() {
+                    rep.violation("C07:archive-content:relative-pattern", json!({"pattern": pattern, "count": count, "after_roll": r + 1,
+                        "expected_archives": want, "got_archives": got, "result": format!("{:?}", res.map_err(|p| p.message))}));
+                    break;
+                }
+            }
+            if let Some(o) = &old {
+                let _ = std::env::set_current_dir(o);
+            }
+        }
+    }
+    if let Some(o) = old {
+        let _ = std::env::set_current_dir(o);
+    }
+}
+
 pub fn run(rep: &mut Report) {
     std::env::set_var(ENV_NAME, ENV_VALUE);
     std::env::set_var(ENV_BRACES_NAME, ENV_BRACES_VALUE);
@@ -435,6 +490,7 @@ pub fn run(rep: &mut Report) {
     }
     let n = if rep.tier == "thorough" { 30_000 } else { 4_000 };
     run_cases(rep, "roll", n, one_case);
+    relative_pattern_cases(rep);
     rep.require(rep.counter("rolls_observed") > 1000, "fewer than 1000 rolls observed");
     rep.require(rep.counter("archives_compared") > 1000, "fewer than 1000 archives compared");
     rep.require(rep.counter("rolls_under_the_event_monitor") > 1000, "fewer than 1000 rolls ran under the filesystem-event monitor");
